@@ -28,6 +28,13 @@ F = ["logix_driver.LogixDriver.get_tag_list", "logix_driver._get_tag_list", "log
 KEEP = {"D1", "I1", "R1", "S3", "BA", "U1", "UA", "O1", "ST", "S5", "Program:Main", "PD", "PU", "Routine:R1"}
 
 
+def member_key(typ, m):
+    """name under which a member is listed: unnamed (reserved) members become private __unknown<k> in declaration order"""
+    if m.name:
+        return m.name
+    return "__unknown%d" % [x for x in typ.members if not x.name].index(m)
+
+
 def project(meta=None, rev=32, small=False, **kw):
     """std project + system / module / alias symbols.  meta: symbolic overrides.  small: the reduced symbol table used by the symbolic obligations"""
     meta = meta or {}
@@ -39,18 +46,21 @@ def project(meta=None, rev=32, small=False, **kw):
     t1 = [x for x in t.templates.values() if x.name == "UDT1"][0]
     io = Template(0x130, "AB:1756_DI:I:0", 8, [Member("Fault", 0xC4, 0), Member("Data", 0xC4, 4)])
     t.templates[io.instance_id] = io
+    # a type with unnamed (reserved) members between named ones: two consecutive NULs inside the name block
+    rsv = Template(0x140, "RSV1", 16, [Member("Status", 0xC4, 0), Member("", 0xC4, 4), Member("Pos", 0xCA, 8), Member("", 0xC3, 12), Member("Cnt", 0xC3, 14)])
+    t.templates[rsv.instance_id] = rsv
     extra = [
         Symbol("Task:MainTask", 50, 0x70), Symbol("Map:Local", 51, 0x69), Symbol("Cxn:Standard:abc", 52, 0x7E), Symbol("__DEFVAL_0001", 53, 0xC4),
         Symbol("Local:1:I", 54, io), Symbol("Local:1:C", 55, io), Symbol("Rack:O", 56, 0xC4), Symbol("ALIAS1", 57, 0xC4, base=False),
         Symbol("SysHidden", 58, 0xC4, system=True), Symbol("Program:Second", 59, 0x68), Symbol("P2T", 60, 0xC3, (3,), program="Second"),
         Symbol("Routine:Main", 61, 0x6D, program="Second"), Symbol("__hidden_in_prog", 62, 0xC4, program="Main"),
         Symbol("A", 63, 0xC2), Symbol("Odd", 64, 0xC6, (2, 2)),
-        Symbol("Drive:I1", 65, 0xC4), Symbol("Local:3:I2", 66, io), Symbol("Remote:S", 67, 0xC3),
+        Symbol("Drive:I1", 65, 0xC4), Symbol("Local:3:I2", 66, io), Symbol("Remote:S", 67, 0xC3), Symbol("RV", 68, rsv),
     ]
     if small == "tiny":
-        extra = [e for e in extra if e.name in ("ALIAS1", "__DEFVAL_0001")]
+        extra = [e for e in extra if e.name in ("ALIAS1", "__DEFVAL_0001", "RV")]
     elif small:
-        extra = [e for e in extra if e.name in ("Task:MainTask", "Map:Local", "__DEFVAL_0001", "Local:1:I", "ALIAS1", "SysHidden", "A", "Drive:I1", "Local:3:I2")]
+        extra = [e for e in extra if e.name in ("Task:MainTask", "Map:Local", "__DEFVAL_0001", "Local:1:I", "ALIAS1", "SysHidden", "A", "Drive:I1", "Local:3:I2", "RV")]
     t.symbols += extra
     if "iid" in meta:
         t.find_symbol("D1").instance_id = meta["iid"]
@@ -86,13 +96,13 @@ def expect_type(typ, got, where):
         return f"{where}: struct name"
     if got["template"]["structure_size"] != typ.size or got["template"]["member_count"] != len(typ.members):
         return f"{where}: template attributes"
-    vis = [m.name for m in typ.members if not V.hidden(m.name)]
+    vis = [m.name for m in typ.members if m.name and not V.hidden(m.name)]
     if list(got["attributes"]) != vis:
         return f"{where}: visible members {got['attributes']}"
-    if set(got["internal_tags"]) != {m.name for m in typ.members}:
+    if set(got["internal_tags"]) != {member_key(typ, m) for m in typ.members}:
         return f"{where}: member set"
     for m in typ.members:
-        it = got["internal_tags"][m.name]
+        it = got["internal_tags"][member_key(typ, m)]
         if it["offset"] != m.offset:
             return f"{where}.{m.name}: offset"
         if m.typ == 0xC1:
@@ -144,6 +154,9 @@ def compare(d, target, rev, program_tags=True, symbolic_meta=False):
             continue
         exp[s.name if s.program is None else f"Program:{s.program}.{s.name}"] = s
     got = d.tags
+    listed = getattr(d, "_v_returned", None)
+    if listed is not None and sorted(x["tag_name"] for x in listed) != sorted(exp):
+        return "list returned by get_tag_list() is not the tag set (duplicated / missing records): %d records for %d tags" % (len(listed), len(exp))
     if sorted(got) != sorted(exp):
         return "tag set: missing %s / invented %s" % (sorted(set(exp) - set(got))[:3], sorted(set(got) - set(exp))[:3])
     for name, s in exp.items():
@@ -193,7 +206,7 @@ def compare(d, target, rev, program_tags=True, symbolic_meta=False):
 
 def upload(target, rev, program="*"):
     d = scen.make_driver(target, rev=rev)
-    d.get_tag_list(program=program)
+    d._v_returned = d.get_tag_list(program=program)
     return d
 
 
